@@ -192,6 +192,8 @@ type histCfg struct {
 	HSAlphabet string `json:"hs_alphabet,omitempty"`
 	// Discover: give two acceptable suites so the handshake starts with discovery.
 	Discover bool `json:"discover,omitempty"`
+	// FlipLen: length of the authentic reply, for bit-flip/truncation menus.
+	FlipLen int `json:"flip_len,omitempty"`
 }
 
 type opResult struct {
